@@ -73,11 +73,12 @@ KIND_INFO = {
 }
 
 EXC_CLASS = {"zde": "ZeroDivisionError", "boom": "Boom", "none": "NoneReturnedError",
-             "depth": "DeepReferenceError", "kbi": "KeyboardInterrupt", "stop": "StopIteration"}
+             "depth": "DeepReferenceError", "kbi": "KeyboardInterrupt", "stop": "StopIteration",
+             "badret": "ValueError"}
 HANDLER_CLASS = {"zde": "ZeroDivisionError", "boom": "Boom", "exc": "Exception", "base": "BaseException"}
 # which simulated exception kinds a handler class catches
-HANDLES = {"zde": {"zde"}, "boom": {"boom"}, "exc": {"zde", "none", "depth", "stop"},
-           "base": {"zde", "none", "depth", "boom", "kbi", "stop"}}
+HANDLES = {"zde": {"zde"}, "boom": {"boom"}, "exc": {"zde", "none", "depth", "stop", "badret"},
+           "base": {"zde", "none", "depth", "boom", "kbi", "stop", "badret"}}
 
 
 class Dep:
@@ -258,6 +259,9 @@ class Spec:
                     st["line"] = emit("        acc += " + e)
                     emit("    except %s:" % HANDLER_CLASS[dep.handled])
                     emit("        acc += %d" % FALLBACK)
+                elif dep.style == "multi":
+                    emit("    acc += (0 +")
+                    st["line"] = emit("            " + e + ")")
                 else:
                     st["line"] = emit("    acc += " + e)
             else:
@@ -283,6 +287,8 @@ class Spec:
         k, site = f.kind, f.site
         if k == "none":
             return emit(ind + "return None")
+        if k == "badret":           # a space formula must return a dict or None
+            return emit(ind + "return 5")
         if k == "depth":
             return emit(ind + "acc += " + self.deep_expr(j))
         if k == "zde":
@@ -554,6 +560,9 @@ class Sim:
                             break
                         fr[1] = None
                         self._raise("none", j)
+                    elif f.kind == "badret":
+                        fr[1] = None        # raised by modelx after the space formula returned
+                        self._raise("badret", j)
                     elif f.kind == "depth":
                         acc += self._deep(j)
                     else:
@@ -578,3 +587,79 @@ def pure_value(spec, j):
     if r[0] == "ok":
         return ("ok", r[1])
     return ("err", r[1].kind, r[1].origin)
+
+
+# ====================================================================== models with failures that formulas handle
+
+G_KIND_POOL = "SSPPUVLDOKIZ"
+G_STYLES = ["plain", "plain", "comp", "gen", "lam", "sub", "multi"]
+G_SITES = {"zde": ["direct", "comp", "gen", "nested", "helper"], "boom": ["direct", "comp", "gen", "nested", "helper"],
+           "none": ["direct"], "depth": ["direct"], "kbi": ["direct"], "badret": ["direct"]}
+G_MAIN_KINDS = ["zde", "boom", "none", "depth"]
+HANDLER_FOR = {"zde": ["zde", "exc", "base"], "boom": ["boom", "base"], "none": ["exc", "base"],
+               "depth": ["exc", "base"], "kbi": ["base"], "badret": ["exc", "base"]}
+NONHANDLER_FOR = {"zde": ["boom"], "boom": ["zde", "exc"], "none": ["zde", "boom"], "depth": ["zde", "boom"],
+                  "kbi": ["exc", "zde"], "badret": ["zde", "boom"]}
+
+
+def legal_pair(kind, fkind):
+    """(element kind, failure kind) that exist: an uncached cells may return None, only a space formula can
+    return a bad value, a lambda cannot contain a raise statement."""
+    if fkind == "none" and kind == "Z":
+        fkind = "badret"
+    if fkind == "none" and kind in "UV":
+        kind = "S"
+    if fkind == "badret" and kind != "Z":
+        fkind = "zde"
+    if fkind == "kbi" and kind == "L":
+        kind = "S"
+    return kind, fkind
+
+
+def make_handled_spec(n, deps, p, fkind, rnd, extra=False, escape=True):
+    """DAG -> Spec in which element p raises `fkind` (escaping) and, usually, another element raises a failure
+    that all / some of its callers handle with try/except.  -> (spec, small_limit, errmode, ph)"""
+    kinds = [rnd.choice(G_KIND_POOL) for _ in range(n)]
+    kinds[p], fkind = legal_pair(kinds[p], fkind)
+    ph, hkind = None, None
+    cands = [j for j in range(n) if j != p and any(j in deps[c] for c in range(n))]
+    if not escape:
+        # the only failing element is p and (nearly) every caller handles its failure
+        ph, hkind = p, fkind
+    elif cands and rnd.random() < 0.8:
+        ph = rnd.choice(cands)
+        hkind = rnd.choice(G_MAIN_KINDS + (["kbi"] if extra else []))
+        kinds[ph], hkind = legal_pair(kinds[ph], hkind)
+    handle_all = rnd.random() < (0.85 if not escape else 0.7)
+    nodes = []
+    for j in range(n):
+        ds = list(deps[j])
+        if rnd.random() < 0.3:
+            ds.reverse()
+        dl = []
+        for d in ds:
+            st = rnd.choice(G_STYLES)
+            if st == "sub" and kinds[d] != "P":
+                st = "plain"
+            if kinds[j] == "L" and st == "multi":
+                st = "plain"
+            handled = None
+            if kinds[j] != "L":
+                if d == ph and (handle_all or rnd.random() < 0.5):
+                    handled = rnd.choice(HANDLER_FOR[hkind])
+                elif rnd.random() < 0.12:
+                    # a handler that does not catch what passes through it
+                    handled = rnd.choice(NONHANDLER_FOR[fkind])
+                    if d == ph and handled in HANDLER_FOR[hkind]:
+                        handled = None
+            if handled and st in ("lam", "multi"):
+                st = "plain"
+            dl.append(Dep(d, st, handled))
+        nodes.append(Node(j, kinds[j], dl))
+    nodes[p].fail = Fail(fkind, rnd.randrange(len(nodes[p].deps) + 1), rnd.choice(G_SITES[fkind]))
+    if ph is not None and ph != p:
+        nodes[ph].fail = Fail(hkind, rnd.randrange(len(nodes[ph].deps) + 1), rnd.choice(G_SITES[hkind]))
+    small = "depth" in (fkind, hkind)
+    spec = Spec(nodes, deep_cached=rnd.random() < 0.7)
+    errmode = rnd.choice(["formula-error"] * 4 + ["original", "handled"])
+    return spec, small, errmode, ph
